@@ -116,8 +116,20 @@ func VerifH_C17_UniformRejection() {
 }
 
 // stand-in for the ziggurat: an arbitrary norm k/2^20 in [0, 64) and an arbitrary sign bit (engine only)
+// vNormCalls counts the draws of one case: the first candidate of the first coefficient is arbitrary (the real
+// acceptance test decides; one rejection is explored), every later draw is an accepted one.
+var vNormCalls int
+
+// vNormFree enables the arbitrary first candidate (doubles the path count of a case)
+var vNormFree bool
+
 func vStubNormFloat64(g *GaussianSampler) (float64, uint64) {
 	k := vU64("norm")
+	vNormCalls++
+	if vNormCalls == 1 && vNormFree {
+		vAssume(k < 1<<26)
+		return float64(k) / float64(1<<20), vU64("sign") & 1
+	}
 	// accepted samples only (norm*sigma <= bound with a 2^-20 relative margin, so that the float comparison in the
 	// sampler is decided whatever the rounding); rejected candidates simply loop
 	lim := uint64(g.xe.Bound / g.xe.Sigma * float64(1<<20) * (1 - 1.0/float64(1<<20)))
@@ -138,6 +150,7 @@ func vGaussianCase(moduli []uint64, sigma, bound float64, add bool, tag string) 
 	src := &vStream{data: vBytes("s", 1024)}
 	g := NewGaussianSampler(src, r, DiscreteGaussian{Sigma: sigma, Bound: bound}, false)
 	p := r.NewPoly()
+	vNormCalls = 0
 	var a0 [8]uint64
 	if add {
 		for j := range moduli {
@@ -150,6 +163,25 @@ func vGaussianCase(moduli []uint64, sigma, bound float64, add bool, tag string) 
 	}
 	B := new(big.Int)
 	new(big.Float).SetFloat64(bound + 0.5).Int(B)
+	// native witness for a refuted bound (the solver's norm enters through the stand-in, which does not exist
+	// natively): the real sampler on pseudo-random streams
+	vSearch(tag, 1<<12, func(rnd func() uint64) bool {
+		buf := make([]byte, 1<<14)
+		for i := range buf {
+			buf[i] = byte(rnd() >> 32)
+		}
+		gs := NewGaussianSampler(&vStream{data: buf}, r, DiscreteGaussian{Sigma: sigma, Bound: bound}, false)
+		q := r.NewPoly()
+		gs.Read(q)
+		for i := 0; i < r.N(); i++ {
+			if x := vCentredOf(q.Coeffs[0][i], moduli[0]); new(big.Int).Abs(x).Cmp(B) > 0 {
+				vObserve("search-coefficient", uint64(i))
+				vObserve("search-abs-value", new(big.Int).Abs(x).Uint64())
+				return true
+			}
+		}
+		return false
+	})
 	for i := 0; i < 2; i++ { // two coefficients carry symbolic samples (path count), the others follow the same code
 		x := vCentredOf(p.Coeffs[0][i], moduli[0])
 		x.Sub(x, vB(a0[i]))
@@ -175,6 +207,27 @@ func VerifH_C17_Gaussian() {
 	// flooding noise larger than a small modulus of the chain: sigma 2^20, bound 6*2^20, moduli 60-bit and 12289
 	vGaussianCase([]uint64{big60, 12289}, 1048576, 6291456, false, "sigma2^20-small-modulus")
 	vCover("C17-gaussian-reached")
+}
+
+// The acceptance test of the rejection loop itself: the first candidate is an arbitrary norm (accepted or rejected by
+// the real comparison), the bound is the default one and two that are small against sigma and not integers
+// (fractional part below and above one half).
+func vGaussianAcceptance(sigma, bound float64, tag string) {
+	vConfig("backend", "int")
+	vStub("(*github.com/tuneinsight/lattigo/v6/ring.GaussianSampler).normFloat64", "call:vStubNormFloat64")
+	m := VerifSetup_Moduli(0)
+	vNormFree = true
+	vGaussianCase([]uint64{m[len(m)-1], 257}, sigma, bound, false, tag)
+	vNormFree = false
+	vCover("C17-gaussian-acceptance-reached")
+}
+
+func VerifH_C17_GaussianAcceptanceDefault() { vGaussianAcceptance(3.2, 19.2, "accept-sigma3.2-bound19.2") }
+func VerifH_C17_GaussianAcceptanceLowFraction() {
+	vGaussianAcceptance(3.2, 2.2, "accept-sigma3.2-bound2.2")
+}
+func VerifH_C17_GaussianAcceptanceHighFraction() {
+	vGaussianAcceptance(3.2, 2.7, "accept-sigma3.2-bound2.7")
 }
 
 func VerifH_C17_TernaryHalf() {
@@ -203,6 +256,42 @@ func VerifH_C17_TernaryHalf() {
 				vAssert(cls == w0, tag+"-ternary-one-integer-on-every-limb")
 			}
 		}
+		// the whole support is possible for every coefficient (+1 and -1: no sign is excluded), and the sign is not
+		// tied to the neighbouring coefficient
+		for _, i := range []int{0, n - 1} {
+			w := p.Coeffs[0][i]
+			if mont {
+				w = IMForm(w, moduli[0], r.SubRings[0].MRedConstant)
+			}
+			vReach(w == 1, tag+"-ternary-plus-one-possible")
+			vReach(w == moduli[0]-1, tag+"-ternary-minus-one-possible")
+			vReach(w == 0, tag+"-ternary-zero-possible")
+		}
+		vSearchNone(tag+"-ternary", 64, func(rnd func() uint64) bool {
+			buf := make([]byte, 64)
+			for i := range buf {
+				buf[i] = byte(rnd() >> 32)
+			}
+			tn, _ := NewTernarySampler(&vStream{data: buf}, r, Ternary{P: 0.5}, mont)
+			q := r.NewPoly()
+			tn.Read(q)
+			seen := [3]bool{}
+			for i := 0; i < n; i++ {
+				w := q.Coeffs[0][i]
+				if mont {
+					w = IMForm(w, moduli[0], r.SubRings[0].MRedConstant)
+				}
+				switch w {
+				case 0:
+					seen[0] = true
+				case 1:
+					seen[1] = true
+				case moduli[0] - 1:
+					seen[2] = true
+				}
+			}
+			return seen[0] && seen[1] && seen[2]
+		})
 		// same stream on a level view: limb 0 identical, upper limbs untouched
 		src2 := &vStream{data: src.data}
 		ts2, _ := NewTernarySampler(src2, r, Ternary{P: 0.5}, mont)
@@ -301,4 +390,39 @@ func VerifH_C17_GaussianFloodingConcrete() {
 		vAssert(new(big.Int).Abs(x).Cmp(big.NewInt(6291457)) <= 0, "flooding-gaussian-sample-within-the-bound")
 		vAssert(vCong(vB(p.Coeffs[1][i]), x, moduli[1]), "flooding-gaussian-one-integer-on-every-limb")
 	}
+}
+
+// A sampler re-keyed with WithPRNG on a parent that has already been used behaves as a fresh sampler on the new
+// source (it reproduces the stream of its key), and the parent continues its own stream as if the child did not exist.
+func VerifH_C17_UniformRekeyed() {
+	moduli := []uint64{97}
+	r := vSamplerRing(moduli)
+	n := r.N()
+	s := vBytes("s", 2048)
+	k := vBytes("k", 2048)
+	mask := r.SubRings[0].Mask
+	for i := 0; i < 8*n; i++ { // candidates accepted (rejection is VerifH_C17_UniformRejection)
+		vAssume(binary.BigEndian.Uint64(s[8*i:8*i+8])&mask < 97)
+		vAssume(binary.BigEndian.Uint64(k[8*i:8*i+8])&mask < 97)
+	}
+	parent := NewUniformSampler(&vStream{data: s}, r)
+	twin := NewUniformSampler(&vStream{data: s}, r)
+	p0, t0 := r.NewPoly(), r.NewPoly()
+	parent.Read(p0)
+	twin.Read(t0)
+	child := parent.WithPRNG(&vStream{data: k})
+	fresh := NewUniformSampler(&vStream{data: k}, r)
+	pc, pf := r.NewPoly(), r.NewPoly()
+	child.Read(pc)
+	fresh.Read(pf)
+	p1, t1 := r.NewPoly(), r.NewPoly()
+	parent.Read(p1)
+	twin.Read(t1)
+	child.Read(pc)
+	fresh.Read(pf)
+	for i := 0; i < n; i++ {
+		vAssert(pc.Coeffs[0][i] == pf.Coeffs[0][i], "rekeyed-sampler-reproduces-the-stream-of-its-key")
+		vAssert(p1.Coeffs[0][i] == t1.Coeffs[0][i], "parent-stream-unaffected-by-the-rekeyed-child")
+	}
+	vCover("C17-uniform-rekeyed-reached")
 }
